@@ -544,6 +544,14 @@ func (e *EvalCtx) call(n ECall) Val {
 	case "inv": // object invariant of the argument's static type
 		a := arg(0)
 		return boolVal(e.c.objInvOf(e, a))
+	case "has": // has(m, k): key k present in map m
+		m, k := arg(0), arg(1)
+		mt, ok := m.Typ.Underlying().(*types.Map)
+		if !ok {
+			e.fail("has() needs a map")
+		}
+		pa := e.c.heapGet(e.heap, typeKey(mt)+"#present", "Bool")
+		return boolVal(fmt.Sprintf("(and (not (= %s 0)) (select (select %s %s) %s))", m.T, pa, m.T, k.T))
 	case "lockinv": // monitor invariants of the locks declared on the argument's type
 		a := arg(0)
 		return boolVal(e.c.lockInvOf(e, a))
@@ -800,6 +808,18 @@ func (c *FnCtx) resolveLoc(p *Path, ec *EvalCtx, loc string) (out []locTarget) {
 	if loc == "*" {
 		c.havocAll(p)
 		return nil
+	}
+	if strings.HasPrefix(loc, "mapof(") {
+		x, err := ParseExpr(loc[6 : len(loc)-1])
+		if err != nil {
+			panic(contractError{err.Error()})
+		}
+		v := ec.eval(x)
+		mt, ok := v.Typ.Underlying().(*types.Map)
+		if !ok {
+			panic(contractError{"mapof() needs a map"})
+		}
+		return []locTarget{{typeKey(mt), v.T}}
 	}
 	if strings.HasPrefix(loc, "elems(") {
 		x, err := ParseExpr(loc[6 : len(loc)-1])
